@@ -202,4 +202,34 @@ def Update.apply (u : Update) (p : Params) : Params :=
     wait := u.wait.getD p.wait,
     retryOnTimeout := u.retryOnTimeout.getD p.retryOnTimeout }
 
+/-! ### what the cluster answers inside an attempt
+
+The property's outcome classes (time-out, connection error, HTTP 408, other API error …) are answers of
+Elasticsearch to the requests an attempt issues.  A runner body is *transparent for client errors* when the
+first client call that raises ends the attempt with that very error, and otherwise the body returns the value it
+computes from the documents (this is what the harness checks on every real runner body). -/
+
+inductive Answer
+  | doc                          -- a response document, whatever it says
+  | error (k : Kind) (tag : Nat) -- the client raised (k: one of the exception classes)
+deriving Repr, DecidableEq
+
+def Answer.isError : Answer → Bool
+  | .error _ _ => true
+  | .doc => false
+
+/-- outcome of an attempt of a transparent body -/
+def bodyOutcome (answers : List Answer) (value : Outcome) : Outcome :=
+  match answers.find? Answer.isError with
+  | some (.error k t) => ⟨k, t⟩
+  | _ => value
+
+structure ClusterAttempt where
+  answers : List Answer
+  value : Outcome      -- what the body returns if no client call raises
+deriving Repr
+
+def retryCluster (p : Params) (atts : List ClusterAttempt) : Run :=
+  retry p (atts.map (fun a => bodyOutcome a.answers a.value))
+
 end Retry
